@@ -327,6 +327,9 @@ where
         // any thrown errors would've been caught here
         if self.errors.with_untracked(|map| map.is_empty()) {
             buf.push_str(&new_buf);
+            // the children are what was rendered: whatever follows continues from where
+            // they ended (hydration walks them with the shared position, too)
+            *position = new_pos;
         } else {
             // otherwise, serialize the fallback instead
             (self.fallback)(self.errors).to_html_with_buf(
@@ -364,6 +367,7 @@ where
         // any thrown errors would've been caught here
         if self.errors.with_untracked(|map| map.is_empty()) {
             buf.append(new_buf);
+            *position = new_pos;
         } else {
             // otherwise, serialize the fallback instead
             let mut fallback = String::with_capacity(Fal::MIN_LENGTH);
